@@ -157,6 +157,8 @@ def programs():
     out["opt.arg-roundtrip"] = P([fn("f", "int", ii, [("assign", V("a"), "=", B("+", V("a"), V("b"))), ("decl", "int", "c", V("a")), ("assign", V("b"), "=", V("c")), ("return", B("+", V("b"), V("a")))])], inputs={"a": "int", "b": "int"})
     out["opt.const-cast"] = P([fn("f", "float", [("float", "x")], [("decl", "float", "y", B("+", V("x"), I(1))), ("assign", V("y"), "=", B("*", V("y"), I(2))), ("return", B("+", V("y"), F(1.0)))])], inputs={"x": "float"})
     out["opt.int-float-const"] = P([fn("f", "float", [("int", "a")], [("decl", "int", "b", B("+", V("a"), I(1))), ("decl", "float", "c", F(1.0)), ("return", B("+", V("c"), V("b")))])], inputs={"a": "int"})
+    out["expr.float-cmp-int-div"] = P([fn("f", "int", [("float", "x"), ("float", "y"), ("float", "t")], [("return", B("/", B("+", B("+", B(">", V("x"), V("t")), B(">", V("y"), V("t"))), B("<=", V("x"), V("y"))), I(2)))])],
+                                      inputs={"x": "float", "y": "float", "t": "float"})
     # --- round-2 lessons: loops without a condition, a compound assignment as the for-increment, float storage holding Python ints
     out["for.no-condition"] = P([fn("f", "int", [("int", "n")], [("decl", "int", "s", I(0)), ("for", ("decl", "int", "i", I(0)), None, ("expr", ("pre", "++", "i")),
                                  [("if", B(">=", V("i"), V("n")), [("break",)], None), ("assign", V("s"), "=", B("+", B("*", V("s"), I(10)), V("i")))]), ("return", V("s"))])], inputs={"n": "0..3"})
@@ -554,7 +556,7 @@ def _wasm_bytes(result):
     return b.getvalue()
 
 
-@family("P.compile-history", props=["C07", "C06", "C02", "C14", "C20", "C10", "C05", "C11"],
+@family("P.compile-history", props=["C07", "C06", "C02", "C14", "C20", "C10", "C05", "C11", "C16", "C12", "C13"],
         functions=["nsl.Compiler::Compiler.Compile", "nsl.Compiler::Compiler.__init__", "nsl.passes.GenerateWasm::GetPass", "nsl.passes.GenerateWasm::GenerateWasmVisitor.Finalize", "nsl.passes.LowerToIR::GetPass"],
         assumptions=["BOUNDED in histories (never counted as a proof over all histories): every ordered pair and triple drawn from 7 programs (5 accepted, 2 rejected), compiled one after the other by ONE Compiler object under each of the option sets {}, optimize, wasm, optimize+wasm, compared with a fresh Compiler"])
 def compile_history(R):
